@@ -32,6 +32,7 @@ type slWorld struct {
 	// contended deletes: two helpers raced for one unlink / two deleters for one node
 	contended bool
 	initial   map[string]string
+	extra     func(s *sched.Sched) // registers additional controlled threads (readers)
 }
 
 func newSLWorld(f *failer, mm bool, mode guard.Mode) *slWorld {
@@ -210,6 +211,9 @@ func (w *slWorld) runScripts(scripts [][]slOp, picker sched.Picker, shared []*sk
 				s.Yield(0)
 			}
 		})
+	}
+	if w.extra != nil {
+		w.extra(s)
 	}
 	skiplist.VerifSetHooks(s.Yield, func(m *sync.Mutex) { s.LockWait(m) })
 	fail := s.Run()
